@@ -71,6 +71,26 @@ def whole_query_cases(backend):
         ("collection-two-args", f"ds.Select(lambda e: e.{a.primary}('A', 'B').Count())"),
         ("collection-nonstring-arg", f"ds.Select(lambda e: e.{a.primary}(1).Count())"),
         ("method-on-number", f"ds.Select(lambda e: {c}.Count().pt())"),
+        ("free-name-after-selectmany", f"ds.SelectMany(lambda e: {c}).Select(lambda j: e.{a.secondary}('B').Count())"),
+        ("free-name-after-select", f"ds.Select(lambda e: {c}).Select(lambda js: e.{a.secondary}('B').Count())"),
+        ("free-name-after-where", f"ds.Where(lambda e: {c}.Count() > 0).Select(lambda ev: e.{a.secondary}('B').Count())"),
+        ("collection-on-object", f"ds.Select(lambda e: {c}.Select(lambda j: j.{a.secondary}('B').Count()))"),
+        ("lambda-two-params", f"ds.Select(lambda e: {c}.Select(lambda j, k: j.pt()))"),
+        ("lambda-no-params", f"ds.Select(lambda e: {c}.Select(lambda: 1))"),
+        ("lambda-star-params", f"ds.Select(lambda e: {c}.Select(lambda *j: 1))"),
+        ("lambda-default-param", f"ds.Select(lambda e: {c}.Select(lambda j, k=2: j.pt()))"),
+        ("lambda-where-two-params", f"ds.Select(lambda e: {c}.Where(lambda j, k: j.pt() > 1).Count())"),
+        ("lambda-selectmany-no-params", f"ds.Select(lambda e: {c}.SelectMany(lambda: {c}).Count())"),
+        ("lambda-aggregate-one-param", f"ds.Select(lambda e: {c}.Aggregate(0, lambda acc: acc + 1))"),
+        ("lambda-aggregate-three-params", f"ds.Select(lambda e: {c}.Aggregate(0, lambda acc, v, w: acc + 1))"),
+        ("lambda-event-two-params", f"ds.Select(lambda e, f: {c.replace('e.', 'e.')}.Count())"),
+        ("object-equals-object", f"ds.Select(lambda e: {c}.Select(lambda j: j == j))"),
+        ("object-greater-number", f"ds.Select(lambda e: {c}.Where(lambda j: j > 1).Count())"),
+        ("not-object", f"ds.Select(lambda e: {c}.Select(lambda j: not j))"),
+        ("not-collection", f"ds.Select(lambda e: not {c})"),
+        ("range-bound-collection", f"ds.Select(lambda e: Range(0, {c}))"),
+        ("index-by-object", f"ds.Select(lambda e: {c}[{c}.First()].pt())"),
+        ("index-by-collection", f"ds.Select(lambda e: {c}[{c}].pt())"),
         ("undefined-name", f"ds.Select(lambda e: {c}.Select(lambda j: j.pt() + undefined_thing))"),
         ("unknown-function", f"ds.Select(lambda e: {c}.Select(lambda j: no_such_function(j.pt())))"),
         ("range-one-arg", "ds.Select(lambda e: Range(3))"),
